@@ -236,6 +236,21 @@ func (x *Exec) nttMatrix(n int, q, prim, nthRoot uint64, inverse bool) [][]uint6
 	return m
 }
 
+// inttTolerates: the lazy inverse butterflies map a bound B on their inputs to 2B-2q (X = U+V, minus 2q when >= 2q),
+// so an excess B-2q > 0 doubles at every one of the log2(N) stages.  The model rings are tiny (N = 16); the bound is
+// evaluated for the largest ring degree the library accepts (rlwe.MaxLogN = 20), the range a caller must respect
+// for its code to be correct on every supported ring.
+func inttTolerates(hi *big.Int, q uint64) bool {
+	twoQ := new(big.Int).SetUint64(2 * q)
+	if hi.Cmp(twoQ) < 0 {
+		return true
+	}
+	ex := new(big.Int).Sub(hi, twoQ)
+	ex.Add(ex, big.NewInt(1))
+	ex.Lsh(ex, 20)
+	return ex.Add(ex, twoQ).Cmp(two64big) < 0
+}
+
 func nttStub(inverse bool, lazy uint64) feStub {
 	return func(x *Exec, fn *ssa.Function, args []Value) (Value, bool) {
 		p1, p2 := args[1].(Slice), args[2].(Slice)
@@ -254,19 +269,19 @@ func nttStub(inverse bool, lazy uint64) feStub {
 			in[i] = x.feArg(p1.Obj.Cells[p1.Off+i], q)
 		}
 		// input ranges the lazy butterflies tolerate (C01 stage lemmas): the inverse transform keeps its [0, 2q)
-		// invariant only from inputs below 2q (values above double at every stage); the forward transform lets
+		// invariant from inputs below 2q; the excess of a larger input doubles at every stage (inttTolerates); the forward transform lets
 		// an input grow by at most 4q before its first conditional reduction
 		flagged := false
 		for i := 0; i < n && !flagged; i++ {
-			if inverse && in[i].Hi.Cmp(new(big.Int).SetUint64(2*q)) >= 0 {
+			if inverse && !inttTolerates(in[i].Hi, q) {
 				flagged = true
 				x.addObligation(&Obligation{ID: "intt-input-below-2q", Kind: "range", Cond: x.ts.False,
-					Where: fmt.Sprintf("%s on a value with tracked upper bound %s >= 2q (q=%d): the lazy inverse butterflies wrap around 2^64", fn.Name(), in[i].Hi, q)})
+					Where: fmt.Sprintf("%s on a value with tracked upper bound %s (q=%d): above 2q the excess doubles at every stage of the lazy inverse butterflies and reaches 2^64 for ring degrees the library supports; called from %s", fn.Name(), in[i].Hi, q, x.callers(3))})
 			}
 			if !inverse && new(big.Int).Add(in[i].Hi, new(big.Int).Mul(big.NewInt(4), new(big.Int).SetUint64(q))).Cmp(two64big) >= 0 {
 				flagged = true
 				x.addObligation(&Obligation{ID: "ntt-input-range", Kind: "range", Cond: x.ts.False,
-					Where: fmt.Sprintf("%s on a value with tracked upper bound %s (q=%d): input + 4q reaches 2^64", fn.Name(), in[i].Hi, q)})
+					Where: fmt.Sprintf("%s on a value with tracked upper bound %s (q=%d): input + 4q reaches 2^64; called from %s", fn.Name(), in[i].Hi, q, x.callers(3))})
 			}
 		}
 		for j := 0; j < n; j++ {
@@ -525,7 +540,7 @@ func init() {
 				if in := x.feArg(p1P[k].Obj.Cells[p1P[k].Off+i], riP.moduli[k]); in.Hi.Cmp(new(big.Int).SetUint64(2*riP.moduli[k])) >= 0 {
 					flagged = true
 					x.addObligation(&Obligation{ID: "moddown-input-P-below-2p", Kind: "range", Cond: x.ts.False,
-						Where: fmt.Sprintf("%s: P limb %d has tracked upper bound %s >= 2p (p=%d)", fn.Name(), k, in.Hi, riP.moduli[k])})
+						Where: fmt.Sprintf("%s: P limb %d has tracked upper bound %s >= 2p (p=%d); called from %s", fn.Name(), k, in.Hi, riP.moduli[k], x.callers(3))})
 				}
 			}
 		}
@@ -534,7 +549,7 @@ func init() {
 				if in := x.feArg(p1Q[k].Obj.Cells[p1Q[k].Off+i], riQ.moduli[k]); in.Hi.Cmp(new(big.Int).SetUint64(2*riQ.moduli[k])) > 0 {
 					flagged = true
 					x.addObligation(&Obligation{ID: "moddown-input-Q-at-most-2q", Kind: "range", Cond: x.ts.False,
-						Where: fmt.Sprintf("%s: Q limb %d has tracked upper bound %s > 2q (q=%d)", fn.Name(), k, in.Hi, riQ.moduli[k])})
+						Where: fmt.Sprintf("%s: Q limb %d has tracked upper bound %s > 2q (q=%d); called from %s", fn.Name(), k, in.Hi, riQ.moduli[k], x.callers(3))})
 				}
 			}
 		}
@@ -728,7 +743,11 @@ func init() {
 				st.decompIDs[key] = id
 			}
 			j := w / width
-			u := &UFE{Name: fmt.Sprintf("bit%d.%d", id, j), Class: ClsDigit, Hi: mask}
+			dhi := mask // a digit is at most the mask and at most the shifted source value
+			if sh := new(big.Int).Rsh(src.Hi, uint(w)); sh.IsUint64() && sh.Uint64() < dhi {
+				dhi = sh.Uint64()
+			}
+			u := &UFE{Name: fmt.Sprintf("bit%d.%d", id, j), Class: ClsDigit, Hi: dhi}
 			if w%width != 0 {
 				panic(x.errf("MaskVec stub: shift %d is not a multiple of the digit width %d", w, width))
 			}
@@ -740,7 +759,7 @@ func init() {
 					c := powmod(2, uint64(jj*width), q)
 					p = p.add(d.P.scale(c).neg())
 				}
-				u.Special = map[uint64]*FE{q: {P: p, Lo: bigZero, Hi: new(big.Int).SetUint64(mask)}}
+				u.Special = map[uint64]*FE{q: {P: p, Lo: bigZero, Hi: new(big.Int).SetUint64(dhi)}}
 			}
 			x.setCell(p2.Obj, p2.Off+n, u)
 		}
